@@ -42,6 +42,7 @@ RULE = ("Enumerated part: a single-byte flip at every offset of the relay "
 RULE += (' One configuration in four runs two independent sessions (different keys) in one process; fake managers also send 0..3 records in the very turn a connection is selected.')
 RULE += (' A fifth configuration puts a junk line ahead of the genuine stream as a segment of its own, on transports whose buffers drain under scheduler control and which may deliver in-flight data after loseConnection().')
 RULE += (' A sixth configuration writes a backlog of 40..159 records right behind the KCM (selection turn).')
+RULE += (' A third of the sampled runs use managers that pause the L2 connection from inside got_record and resume later.')
 LEVEL_TEXT = ("Fault enumeration over corruption points + seeded exploration "
               "of record values and chunkings. Oracle: the records the peer's "
               "manager receives are a prefix of the records handed to "
